@@ -12,15 +12,18 @@ RULE = ("case = (platform family in {iCE40/.pcf, ECP5-Trellis/.lpf, Gowin-Apicul
         "pins; a history of <= 25 request operations including refusals placed after partial progress: duplicates, unknown "
         "resources, pin conflicts on a late pin of a late subsignal, illegal direction changes, bad xdr; then a build of a "
         "design buffering a seeded subset of the granted ports, optionally with clock constraints the design puts on internal "
-        "nets of named submodules / of the top module / on a signal it never uses). Non-trivial = at least one request granted, one refused "
+        "nets (local to a submodule, of the top module, crossing module boundaries upwards / downwards / between siblings / from "
+        "two levels down, or on a signal it never uses); in a seeded third of the runs the same Resource objects were used before "
+        "by another board revision with differently wired connectors). Non-trivial = at least one request granted, one refused "
         "and the plan built; distinct = distinct SHA-256 of (outcomes, constraint file).")
 ASSUMPTIONS = [
     "Pin-owner model (dict) is the reference for grant/refuse; 'history minus refused operations on a fresh platform' is "
     "the reference for atomicity (same outcomes, same constraint file, same RTLIL port list).",
     "Constraint files are read with small regex parsers for the three open-toolchain templates that render offline.",
     "Clock frequencies are compared with relative tolerance 1e-6 (Period is integer femtoseconds). A constrained internal net is "
-    "named by the path of submodule names below the top module joined with '.', followed by the signal's name; a constraint on a "
-    "signal the design never uses yields no line.",
+    "named by the '.'-joined path (below the top module) of a module in which the net exists - the driving module, a reading "
+    "module or one in between are all accepted - followed by the signal's name, and a wire of that name must exist in that "
+    "module of the emitted RTLIL; a constraint on a signal the design never uses yields no line.",
     "Differential pairs: only the positive port is required in the constraint file (vendor templates bind the pair by its "
     "positive pin); a negative-port line, if present, must name the declared pin.",
 ]
@@ -29,7 +32,8 @@ COMPONENTS = {"real": ["amaranth.build.res.ResourceManager", "amaranth.build.dsl
                        "amaranth.lib.io.Buffer", "amaranth.back.rtlil"],
               "stub": ["pin-owner model", "constraint-file parsers", "no toolchain is executed (do_build=False)"]}
 EXPECTED_PROBES = ("refuse", "refuse_conflict_late", "refuse_duplicate", "refuse_unknown", "refuse_bad_dir", "refuse_bad_xdr",
-                   "refuse_bad_xdr_late", "granted", "connector_chain", "diffpairs", "clock_constraints", "net_clock_constraints", "built",
+                   "refuse_bad_xdr_late", "granted", "connector_chain", "diffpairs", "clock_constraints", "net_clock_constraints", "net_clock_crossing_modules",
+                   "resources_shared_with_other_revision", "built",
                    "legal_after_refusal")
 
 PHYS = ["P%d" % i for i in range(1, 41)]
@@ -103,7 +107,8 @@ def gen_case(seed, tier):
             continue
         seen.add((nm, num))
         resources.append(dict(_gen_ios(cfg, pool, conns, 0, 0.5), name=nm, number=num))
-    config = {"family": family, "connectors": conns, "resources": resources, "default_clk": None}
+    config = {"family": family, "connectors": conns, "resources": resources, "default_clk": None,
+              "decoy_rev": bool(conns) and cfg.random() < 0.3}
     cands = [r for r in resources if r["number"] == 0 and "pins" in r and len(r["pins"]) == 1 and r["dir"] == "i"
              and r["clock_mhz"]]      # (vendor platforms demand a constrained default clock)
     if cands and cfg.random() < 0.4:
@@ -139,14 +144,14 @@ def gen_case(seed, tier):
     # of the top module, and on a signal the design never uses (must be skipped silently)
     net_clocks = []
     if wl.random() < 0.4:
-        for sub in wl.sample(["diva", "divb", None, "unused"], wl.randint(1, 3)):
+        for sub in wl.sample(["local", "top", "unused", "sub_to_top", "top_to_sub", "sibling", "deep"], wl.randint(1, 3)):
             net_clocks.append({"sub": sub, "mhz": wl.choice([6, 12.5, 0.032768, 100, 33.333333])})
     return {"config": config, "steps": ops, "use_frac": wl.choice([1.0, 1.0, 0.6, 0.3]), "use_seed": wl.randrange(1 << 30),
             "net_clocks": net_clocks}
 
 
 # ---- building the real platform ---------------------------------------------------------------------------------
-def make_platform(config):
+def make_platform(config, shared_res=None, res_out=None):
     from amaranth.build import Resource, Subsignal, Pins, DiffPairs, Attrs, Clock, Connector
     from amaranth.hdl import Period
     from amaranth import vendor
@@ -169,7 +174,9 @@ def make_platform(config):
             args.append(Attrs(**node["attrs"]))
         return args
 
-    res = [Resource(r["name"], r["number"], *mk(r, True)) for r in config["resources"]]
+    res = shared_res if shared_res is not None else [Resource(r["name"], r["number"], *mk(r, True)) for r in config["resources"]]
+    if res_out is not None:
+        res_out.extend(res)
     con = []
     for c in config["connectors"]:
         if c.get("form") == "dict":
@@ -326,7 +333,25 @@ def run_history(config, ops, use_frac, use_seed, stats=None, record=None, net_cl
     from amaranth.hdl import Module, Signal, Cat, Const
     from amaranth.lib import io
     from amaranth.build import ResourceError
-    plat, ext = make_platform(config)
+    if config.get("decoy_rev") and config["connectors"]:
+        # another board revision first: the *same* Resource objects on a platform whose connectors are wired differently,
+        # every resource requested there; nothing of it may stick to the shared objects
+        import warnings as _w
+        shared = []
+        dconf = dict(config, connectors=[dict(c, pins=c["pins"][1:] + c["pins"][:1]) for c in config["connectors"]], default_clk=None)
+        dplat, _ = make_platform(dconf, res_out=shared)
+        with _w.catch_warnings():
+            _w.simplefilter("ignore")
+            for r in config["resources"]:
+                try:
+                    dplat.request(r["name"], r["number"], dir="-")
+                except Exception:
+                    pass
+        plat, ext = make_platform(config, shared_res=shared)
+        if stats is not None:
+            stats["probes"]["resources_shared_with_other_revision"] = stats["probes"].get("resources_shared_with_other_revision", 0) + 1
+    else:
+        plat, ext = make_platform(config)
     state = {"granted": set(), "owner": {}}
     outcomes = []
     granted = []      # (op, leaves, returned object)
@@ -463,22 +488,55 @@ def run_history(config, ops, use_frac, use_seed, stats=None, record=None, net_cl
     out = Signal(name="sink_out")
     if sink:
         m.d.comb += out.eq(Cat(*sink).xor())
-    for nc in net_clocks:
+    expect_net = []       # [acceptable hierarchical names, Hz, matched?]
+    for k, nc in enumerate(net_clocks):
         from amaranth.hdl import Period as _Period
-        slow = Signal(name="slow_clk")
-        if nc["sub"] == "unused":
-            pass
-        elif nc["sub"] is None:
+        leaf = "slow_clk%d" % k
+        slow = Signal(name=leaf)
+        mode = nc["sub"]
+        sa, sb = "nc%da" % k, "nc%db" % k
+
+        def reader(mod, tag):
+            rd = Signal(name="rd%d%s" % (k, tag))
+            mod.d.comb += rd.eq(slow)
+        if mode == "unused":
+            names = None
+        elif mode is None or mode == "top":
             m.d.comb += slow.eq(~out)
-            expect_clk["slow_clk"] = nc["mhz"] * 1e6
+            names = [leaf]
+        elif mode == "top_to_sub":
+            m.d.comb += slow.eq(~out)
+            subm = Module()
+            reader(subm, "s")
+            m.submodules[sa] = subm
+            names = [leaf, sa + "." + leaf]
         else:
             subm = Module()
-            subm.d.comb += slow.eq(~out)
-            m.submodules[nc["sub"]] = subm
-            expect_clk[nc["sub"] + ".slow_clk"] = nc["mhz"] * 1e6
+            m.submodules[sa] = subm
+            if mode == "deep":
+                inner = Module()
+                inner.d.comb += slow.eq(~out)
+                subm.submodules.inner = inner
+                reader(m, "t")
+                names = [sa + ".inner." + leaf, sa + "." + leaf, leaf]
+            else:
+                subm.d.comb += slow.eq(~out)
+                names = [sa + "." + leaf]
+                if mode == "sub_to_top":
+                    reader(m, "t")
+                    names.append(leaf)
+                elif mode == "sibling":
+                    sib = Module()
+                    reader(sib, "b")
+                    m.submodules[sb] = sib
+                    names += [leaf, sb + "." + leaf]
         plat.add_clock_constraint(slow, _Period(MHz=nc["mhz"]))
+        if names is not None:
+            expect_net.append([names, nc["mhz"] * 1e6, False])
         if stats is not None:
             stats["probes"]["net_clock_constraints"] = stats["probes"].get("net_clock_constraints", 0) + 1
+            if names and len(names) > 1:
+                stats["probes"]["net_clock_crossing_modules"] = stats["probes"].get("net_clock_crossing_modules", 0) + 1
     with warnings.catch_warnings():
         warnings.simplefilter("ignore")
         if build_should_fail is not None:
@@ -529,9 +587,25 @@ def run_history(config, ops, use_frac, use_seed, stats=None, record=None, net_cl
             cseen[name] = hz
             exp = expect_clk.get(name, optional_loc.get(("clk", name)))
             if exp is None:
+                # a constrained internal net: named by the path (below the top module) of a module in which it exists
+                ent = next((e for e in expect_net if name in e[0] and not e[2]), None)
+                if ent is not None:
+                    ent[2] = True
+                    exp = ent[1]
+                    il_text = plan.files.get("top.il", "")
+                    il_text = il_text.decode() if isinstance(il_text, bytes) else il_text
+                    *scope, leaf_ = name.split(".")
+                    modname = ".".join(["top"] + scope)
+                    mm = re.search(r"^module \\" + re.escape(modname) + r"$(.*?)^end$", il_text, re.M | re.S)
+                    if mm is None or not re.search(r"^\s*wire [^\n]*\\" + re.escape(leaf_) + r"$", mm.group(1), re.M):
+                        raise Violation("clock_names_missing_net", -1, {"name": name, "module": modname})
+            if exp is None:
                 raise Violation("clock_for_undeclared_port", -1, {"port": name, "hz": hz})
             if abs(hz - exp) > 1e-6 * exp:
                 raise Violation("wrong_clock_frequency", -1, {"port": name, "hz": hz, "declared": exp})
+        for names_, hz_, matched in expect_net:
+            if not matched:
+                raise Violation("declared_clock_missing", -1, {"net": names_, "declared": hz_})
         for name, hz in expect_clk.items():
             if name not in cseen:
                 raise Violation("declared_clock_missing", -1, {"port": name, "declared": hz})
